@@ -6,14 +6,43 @@ import random
 from harness import par, tlc, c18replay
 
 
-def _replay_cfg(ctx, cfg, fmt="text", limit=None):
+def _validate_traces(ctx, recorded, tag):
+    """white box: TLC checks the recorded executions against DataImpl.tla (Trace_DataImpl)"""
+    from harness import tracecheck
+    traces = [t for t in recorded if not t.get("nohooks")]
+    if len(traces) < len(recorded):
+        ctx.note_drift("hooks absent or silent: %d of %d executions left no events; white-box trace validation skipped for them"
+                       % (len(recorded) - len(traces), len(recorded)))
+    if not traces:
+        return
+    ok, drift, rejected = tracecheck.validate(ctx, "Trace_DataImpl", traces, tag)
+    ctx.extra["traces_accepted_by_tlc"] = ctx.extra.get("traces_accepted_by_tlc", 0) + len(ok)
+    ctx.traces += len(ok)
+    for t in drift[:3]:
+        ctx.note_drift("execution follows Dataset.tla on every returned value but not DataImpl.tla's internals (cache hits / object ids / load steps), e.g. %s"
+                       % ([(e["fields"], e["input"], e["axis"], e["hit"], e["ids"]) for e in t["events"]],))
+    if len(drift) > 3:
+        ctx.drift["(further traces with internal drift)"] = len(drift) - 3
+    for t in rejected:
+        ctx.diverge("trace:rejected", {"kind": "trace", "trace": t},
+                    detail="TLC cannot follow the recorded execution even on observables: %s" % ([(e["fields"], e["input"], e["axis"], e["index"]) for e in t["events"]],))
+
+
+def _replay_cfg(ctx, cfg, fmt="text", limit=None, record=0):
     res = tlc.run("MC_DataImpl", cfg, tag=ctx.pid + "_" + cfg, timeout_s=1500)
     ctx.add_tlc(cfg, res, {})
     emitted = res.emitted
     if limit and len(emitted) > limit:
         emitted = random.Random(ctx.seed).sample(emitted, limit)
-    jobs = [(ds, seqs, fmt) for ds, seqs in c18replay.group(emitted)]
+    jobs = [(ds, seqs, fmt, False) for ds, seqs in c18replay.group(emitted)]
+    if record:
+        # a sample of the behaviours is executed once more with the hooks on, and the recorded traces go to TLC
+        rng = random.Random(ctx.seed + 1)
+        sample = emitted if len(emitted) <= record else rng.sample(emitted, record)
+        jobs += [(ds, seqs, fmt, True) for ds, seqs in c18replay.group(sample, per_group=100)]
+    recorded = []
     for out in par.pmap(c18replay.check_group, jobs, chunk=1):
+        recorded += out["recorded"]
         ctx.traces += out["traces"]
         ctx.evaluations += out["n"]
         for site, detail, rep in out["divs"]:
@@ -22,6 +51,8 @@ def _replay_cfg(ctx, cfg, fmt="text", limit=None):
         rs = [s["r"] for s in o["seq"]]
         if len(set(map(str, rs))) > 1:
             ctx.nontriv(str((o["inputs"], rs)))
+    if recorded:
+        _validate_traces(ctx, recorded, cfg)
     if emitted:
         o = emitted[len(emitted) // 2]
         ctx.sample({"inputs": o["inputs"], "request_sequence": [s["r"] for s in o["seq"]], "expected_last": o["seq"][-1]["e"]})
@@ -32,10 +63,12 @@ def run(ctx):
                 "non-trivial = the sequence contains at least two different requests")
     ctx.assumptions = ["observations of different inputs agree where both are present"]
     if ctx.tier == "quick":
-        res = tlc.run("MC_DataImpl", "MC_DataImpl_C18QuickFixed", tag=ctx.pid + "_model", timeout_s=900)
-        ctx.add_tlc("MC_DataImpl_C18QuickFixed (all sequences <= 3, 16 datasets)", res, {"MaxLen": 3})
-        _replay_cfg(ctx, "MC_DataImpl_C18EmitL2")
-        _replay_cfg(ctx, "MC_DataImpl_C18EmitL3", limit=4000)
+        res = tlc.run("MC_DataImpl", "MC_DataImpl_C18QuickL2", tag=ctx.pid + "_model", timeout_s=900)
+        ctx.add_tlc("MC_DataImpl_C18QuickL2 (all sequences <= 2 over the 36-request menu, 16 datasets)", res, {"MaxLen": 2})
+        res = tlc.run("MC_DataImpl", "MC_DataImpl_C18OneL3", tag=ctx.pid + "_model1", timeout_s=900)
+        ctx.add_tlc("MC_DataImpl_C18OneL3 (all sequences <= 3, 1 dataset)", res, {"MaxLen": 3})
+        _replay_cfg(ctx, "MC_DataImpl_C18EmitL2", limit=6000, record=1000)
+        _replay_cfg(ctx, "MC_DataImpl_C18EmitL3", limit=3000, record=500)
     else:
         res = tlc.run("MC_DataImpl", "MC_DataImpl_C18QuickFixed", tag=ctx.pid + "_model", timeout_s=900)
         ctx.add_tlc("MC_DataImpl_C18QuickFixed (all sequences <= 3, 16 datasets)", res, {"MaxLen": 3})
@@ -43,8 +76,8 @@ def run(ctx):
         ctx.add_tlc("MC_DataImpl_C18MixFixed (obs-less input, climatology, -obsrange)", res, {"MaxLen": 3})
         _replay_cfg(ctx, "MC_DataImpl_C18EmitL2")
         _replay_cfg(ctx, "MC_DataImpl_C18EmitL2", fmt="netcdf")
-        _replay_cfg(ctx, "MC_DataImpl_C18EmitL3")
-        _replay_cfg(ctx, "MC_DataImpl_C18EmitMix")
+        _replay_cfg(ctx, "MC_DataImpl_C18EmitL3", record=4000)
+        _replay_cfg(ctx, "MC_DataImpl_C18EmitMix", record=4000)
         ctx.exhaustive = True
     par.clean_workdirs()
 
